@@ -192,7 +192,7 @@ fn emit_case(n: usize, c: &IntCase, src: &mut String) {
 
 fn check_batch(cases: &[IntCase], rep: &mut Report) {
     // `limq` is a value (70000) and, in an unrelated type, a named number (10): as a bound it denotes the value
-    let mut src = String::from("Mq1 DEFINITIONS AUTOMATIC TAGS ::= BEGIN\nTz ::= INTEGER\nHq ::= INTEGER { lowq(0), limq(10) }\nlimq INTEGER ::= 70000\n");
+    let mut src = String::from("Mq1 DEFINITIONS AUTOMATIC TAGS ::= BEGIN\nTz ::= INTEGER\nHq ::= INTEGER { lowq(0), limq(10) }\nlimq INTEGER ::= 70000\nCbase ::= INTEGER (-100..100)\nCq0 ::= INTEGER (-50..5)\nCq1 ::= Cbase (-50..5)\nCq2 ::= INTEGER (0..70000)\nCq3 ::= Cbase (MIN..5)\n");
     for (n, c) in cases.iter().enumerate() {
         emit_case(n, c, &mut src);
     }
@@ -411,7 +411,7 @@ fn random_case(rng: &mut Rng, pts: &[i128]) -> IntCase {
 pub fn run(ctx: &Ctx) -> Report {
     let mut rep = Report::new(
         "fault_enumeration",
-        "exhaustive: all (lower<=upper) pairs of the 53-point boundary set {MIN, MAX, 0, +-1, +-2^k, +-2^k+-1 (k in 7,8,15,16,31,32,63,64)} x {marker, none}, each in 9 contexts (type assignment, component, component with DEFAULT, component of referenced type, constrained reference as component and as assignment, SEQUENCE OF element, CHOICE alternative, value assignments of both endpoints through three typings); plus every pair at least two apart with an open upper end `a..<b`; plus seeded random 2-operand union/intersection/serial combinations; plus every pair as the two value parameters of a parameterized SEQUENCE instantiated with literals, with a reference to a module-level value, and with a reference to a module-level value spelled like the first dummy reference. Non-trivial = compiled and at least one integer type token resolved and judged; distinct by constraint text.",
+        "exhaustive: all (lower<=upper) pairs of the 53-point boundary set {MIN, MAX, 0, +-1, +-2^k, +-2^k+-1 (k in 7,8,15,16,31,32,63,64)} x {marker, none}, each in 9 contexts (type assignment, component, component with DEFAULT, component of referenced type, constrained reference as component and as assignment, SEQUENCE OF element, CHOICE alternative, value assignments of both endpoints through three typings); plus contained subtypes (`INCLUDES T` / `T`, T directly constrained or a constrained reference with a negative / open lower bound, with and without marker); plus every pair at least two apart with an open upper end `a..<b`; plus seeded random 2-operand union/intersection/serial combinations; plus every pair as the two value parameters of a parameterized SEQUENCE instantiated with literals, with a reference to a module-level value, and with a reference to a module-level value spelled like the first dummy reference. Non-trivial = compiled and at least one integer type token resolved and judged; distinct by constraint text.",
     );
     rep.must_observe = vec!["int_type_tokens_checked".into(), "literals_checked".into(), "int_type_tokens_checked[parameterized]".into()];
     rep.assumptions = vec!["interval model in iv.rs (unit-tested by brute force)".into(), "type tokens resolved through delegate newtypes of the same module".into()];
@@ -469,6 +469,13 @@ pub fn run(ctx: &Ctx) -> Report {
     }
     // a value reference as bound while an unrelated type has a named number of the same spelling
     for (text, lo, hi, ext) in [("(0..limq)", 0i128, 70000i128, false), ("(limq)", 70000, 70000, false), ("(-5..limq, ...)", -5, 70000, true), ("(limq..4294967296)", 70000, 4294967296, false)] {
+        cases.push(IntCase { key: text.to_string(), text: text.to_string(), permitted: IvSet::single(Iv::new(Some(lo), Some(hi))), extensible: ext, ext_ambiguous: false, must_hold: None });
+    }
+    // contained subtypes (directly defined, and constrained references with a negative / open lower bound), with and without marker
+    for (text, lo, hi, ext) in [
+        ("(INCLUDES Cq0)", -50i128, 5i128, false), ("(Cq0)", -50, 5, false), ("(INCLUDES Cq1)", -50, 5, false), ("(Cq1)", -50, 5, false), ("(INCLUDES Cq2)", 0, 70000, false),
+        ("(INCLUDES Cq3)", -100, 5, false), ("(INCLUDES Cq0, ...)", -50, 5, true), ("(INCLUDES Cq2, ...)", 0, 70000, true), ("(INCLUDES Cq1, ...)", -50, 5, true),
+    ] {
         cases.push(IntCase { key: text.to_string(), text: text.to_string(), permitted: IvSet::single(Iv::new(Some(lo), Some(hi))), extensible: ext, ext_ambiguous: false, must_hold: None });
     }
     let nrand = ctx.pick(6_000u64, 60_000);
